@@ -380,6 +380,33 @@ func (s *Session) MisuseMatrix() MisuseStats {
 		tx.Close()
 	}
 	s.ReadCheck("C15")
+
+	// a reader begun while a writer has allocated pages past the committed end: those ids are out of
+	// range for the reader (its bounds are those of the committed state, not of the running writer)
+	if wtx, err := s.F.Begin(); err == nil {
+		var fresh []txfile.PageID
+		if pages, err := wtx.AllocN(3); err == nil {
+			committedEnd := s.F.VerifSnapshot().Meta[s.F.VerifSnapshot().MetaActive].DataEnd
+			for _, p := range pages {
+				if uint64(p.ID()) >= committedEnd {
+					fresh = append(fresh, p.ID())
+				}
+			}
+		}
+		if len(fresh) > 0 {
+			if rtx, err := s.F.BeginReadonly(); err == nil {
+				for _, id := range fresh {
+					id := id
+					run(fmt.Sprintf("read-only Tx.Page(%d) of a page past the committed end, allocated by a running writer", id),
+						func() error { _, err := rtx.Page(id); return err }, []string{"err:pageid"}, true, nil)
+				}
+				rtx.Close()
+				s.mark("misuse-reader-vs-writer-bounds")
+			}
+		}
+		wtx.Close()
+	}
+	s.ReadCheck("C15")
 	return st
 }
 
